@@ -367,7 +367,7 @@ def huge(seed, count, tag='HUGE'):
             for i in range(lead + empty, big):
                 rows[i] = rng.getrandbits(small) or 1
         elif k % 4 == 3:
-            big = rng.randint(5000, 13000)
+            big = rng.randint(5000, 13000) if k % 8 == 3 else rng.randint(17000, 30000)
             rows = [(rng.getrandbits(small) if rng.random() < .002 else 0) for _ in range(big)]
             rows[-1] = rows[-1] or 1
         if k % 2 == 0:
